@@ -352,3 +352,9 @@ PARTS = [
     Part(name="end_to_end", strategy=_e2e_strategy, body=_e2e_body, variants=_e2e_variants,
          examples={"quick": 120, "thorough": 2400}, shards={"quick": 12, "thorough": 12}),
 ]
+
+# the same generator and oracle driven by libFuzzer with branch coverage of the forcing-grid classes as feedback
+from ..fuzz import make_fuzz_part  # noqa: E402
+
+PARTS.append(make_fuzz_part("coverage_guided_transfer_balance", PARTS[0], instrument=["sopht.simulator.immersed_body"],
+                            runs={"quick": 400, "thorough": 40000}, max_time={"quick": 25, "thorough": 900}))
